@@ -85,7 +85,7 @@ func builtinFunctionApply(call FunctionCall) Value {
 		return call.thisObject().call(this, nil, false, nativeFrame)
 	case valueObject:
 	default:
-		panic(call.runtime.panicTypeError("Function.apply unknown type %T for second argument"))
+		panic(call.runtime.panicTypeError("Function.apply second argument must be an object"))
 	}
 
 	arrayObject := argumentList.object()
